@@ -39,6 +39,40 @@ def strategy(tier):
     return gen_c09.cases()
 
 
+def enumerate_specs(tier):
+    """deterministic boundary family: every special row kind (CPM == 0, CPM == 1, ge1 band, just outside the band,
+    just above 1) x every dtype x worker counts x chunk sizes, on a small scrambled two-level tree"""
+    tree = {'hierarchy': ['class', 'cluster'],
+            'class': {'k_b': ['c_z', 'c_a'], 'k_a': ['c_m']},
+            'cluster': {'c_z': [], 'c_m': [], 'c_a': []}}
+    out = []
+    procs, rats = ((1, 3), (1, 3)) if tier == 'quick' else ((1, 2, 3, 4), (1, 2, 3, 5, 12))
+    for kind, dtypes, kinds in (('raw', gen_c09.RAW_DTYPES, ['rand', 'zero', 'cpm1', 'cpm1_band', 'cpm1_lo', 'cpm1_hi', 'big', 'cpm1', 'rand', 'cpm1']),
+                                ('log2', gen_c09.LOG_DTYPES, ['rand', 'zero', 'one', 'band', 'lo', 'hi', 'rand', 'one', 'rand', 'one'])):
+        for di, dt in enumerate(dtypes):
+            for npr in procs:
+                for rat in rats:
+                    n = len(kinds)
+                    labels = [0, 1, 2, 0, 0, -1, 1, 0, 2, 0]
+                    k = di * 100 + npr * 10 + rat
+                    a = [(i * 7 + k) % n for i in range(n)]
+                    a = sorted(range(n), key=lambda i: (a[i], i))
+                    lab_idx = [i for i in range(n) if labels[i] >= 0]
+                    parts = [
+                        {'route': 'tree', 'files': [{'enc': ('csr', 'csc', 'dense')[k % 3], 'rows': a[:4]},
+                                                    {'enc': ('csc', 'dense', 'csr')[k % 3], 'rows': a[4:]}],
+                         'rows_at_a_time': rat, 'n_processors': npr, 'tmp_dir': True},
+                        {'route': 'columns', 'files': [{'enc': ('dense', 'csr', 'csc')[k % 3], 'rows': lab_idx[::-1]}],
+                         'rows_at_a_time': rat + 1, 'n_processors': 1 + npr % 4, 'tmp_dir': True},
+                        {'route': 'rows', 'files': [{'enc': 'csr', 'rows': list(range(n))}],
+                         'rows_at_a_time': n + 2, 'n_processors': 1, 'tmp_dir': False}]
+                    out.append({'tree': tree, 'genes': ['g2', 'g0', 'g1', 'g3'], 'cells': [f'c{i}' for i in range(n)],
+                                'labels': labels, 'cells_as_int': False,
+                                'x': {'kind': kind, 'dtype': dt, 'seed': k, 'max_count': 40, 'density': 0.7, 'rows': kinds},
+                                'parts': parts, 'datasets': [i % 2 for i in range(n)], 'ds_metadata': bool(k % 2)})
+    return out
+
+
 def sample_view(spec):
     return {'hierarchy': spec['tree']['hierarchy'], 'n_leaves': len(spec['tree'][spec['tree']['hierarchy'][-1]]),
             'labels': spec['labels'], 'n_genes': len(spec['genes']),
@@ -144,6 +178,16 @@ class Labelling(object):
             t[lv][self.leaf_of(i)].append(self.cell_token(i))
         return t
 
+    def rows_route_taxonomy(self, rows):
+        """single file + tree: the full tree, leaves listing the row numbers of their cells in that file"""
+        t = copy.deepcopy(self.tree0)
+        lv = self.h[-1]
+        t[lv] = {leaf: [] for leaf in self.tree0[lv]}
+        for pos, i in enumerate(rows):
+            if self.labels[i] >= 0:
+                t[lv][self.leaf_of(i)].append(pos)
+        return t
+
     def column_route_taxonomy(self, rows):
         """what the label columns of a file with these cells (in this order) say: only nodes that occur"""
         t = {'hierarchy': list(self.h)}
@@ -202,18 +246,25 @@ def run_part(d, tag, part, spec, lab, paths, cell_set=None):
     tmp = d / f'{tag}_tmp'
     tmp.mkdir(exist_ok=True)
     norm = 'raw' if spec['x']['kind'] == 'raw' else 'log2CPM'
+    tmp_arg = str(tmp) if part.get('tmp_dir', True) else None
     try:
         with quiet():
             if part['route'] == 'columns':
                 pfa.precompute_summary_stats_from_h5ad(
                     data_path=paths[0], column_hierarchy=list(lab.h), taxonomy_tree=None, output_path=out,
-                    rows_at_a_time=part['rows_at_a_time'], normalization=norm, tmp_dir=str(tmp),
+                    rows_at_a_time=part['rows_at_a_time'], normalization=norm, tmp_dir=tmp_arg,
+                    n_processors=part['n_processors'])
+            elif part['route'] == 'rows':
+                tt = TaxonomyTree(data=lab.rows_route_taxonomy(part['files'][0]['rows']))
+                pfa.precompute_summary_stats_from_h5ad(
+                    data_path=paths[0], column_hierarchy=None, taxonomy_tree=tt, output_path=out,
+                    rows_at_a_time=part['rows_at_a_time'], normalization=norm, tmp_dir=tmp_arg,
                     n_processors=part['n_processors'])
             else:
                 tt = TaxonomyTree(data=lab.tree_route_taxonomy())
                 pfa.precompute_summary_stats_from_h5ad_list_and_tree(
                     data_path_list=list(paths), taxonomy_tree=tt, output_path=out,
-                    rows_at_a_time=part['rows_at_a_time'], normalization=norm, tmp_dir=str(tmp),
+                    rows_at_a_time=part['rows_at_a_time'], normalization=norm, tmp_dir=tmp_arg,
                     n_processors=part['n_processors'], cell_set=cell_set)
     except Exception as e:  # noqa
         raise Violation('writer_raised', {'part': tag, 'error': f'{type(e).__name__}: {str(e)[:300]}'})
@@ -415,11 +466,14 @@ def check(spec):
             if part['route'] == 'columns':
                 want_tree = lab.column_route_taxonomy(part['files'][0]['rows'])
                 clusters = list(want_tree[lab.h[-1]].keys())
+            elif part['route'] == 'rows':
+                want_tree = lab.rows_route_taxonomy(part['files'][0]['rows'])
+                clusters = lab.leaf_names
             else:
                 want_tree = lab.tree_route_taxonomy()
                 clusters = lab.leaf_names
             check_tables(st, tag, clusters, spec['genes'])
-            check_taxonomy(st, tag, want_tree, exact=(part['route'] == 'tree'))
+            check_taxonomy(st, tag, want_tree, exact=(part['route'] != 'columns'))
             agg = cv.aggregate({c: leaf_groups_all[c] for c in clusters})
             compare_with_oracle(st, tag, agg, rel, info)
             stats.append(st)
@@ -427,7 +481,7 @@ def check(spec):
             if pi > 0:
                 compare_files(stats[0], st, f'p0~{tag}', rel)
             # classification
-            cw, cc = work_split(part, named if part['route'] == 'tree' else set(part['files'][0]['rows']))
+            cw, cc = work_split(part, named)
             for c in clusters:
                 ws = {cw[i] for i in leaf_groups_all[c] if i in cw}
                 cs = {cc[i] for i in leaf_groups_all[c] if i in cc}
